@@ -56,7 +56,15 @@ class SpecMixin:
         if k == 'bin':
             op = e[1]
             if op == '==>':
-                return z3.Implies(self.sev(env, e[2]), self.sev(env, e[3]))
+                lhs = self.sev(env, e[2])
+                if z3.is_false(z3.simplify(lhs)):
+                    return z3.BoolVal(True)
+                try:
+                    return z3.Implies(lhs, self.sev(env, e[3]))
+                except Unsupported as ex:
+                    if 'unknown name' in str(ex):      # consequent names a local that does not exist on this path:
+                        return z3.Not(lhs)              # the implication holds only vacuously
+                    raise
             if op == '<==>':
                 return self.sev(env, e[2]) == self.sev(env, e[3])
             if op == '&&':
@@ -319,6 +327,12 @@ class SpecMixin:
                 x = vals[0]
                 return golib.strs_ident(x.arrs[0], x.arrs[1], x.arrs[2], x.off, x.len)
             if name == 'strof': return StrV(golib.str_arr_of(vals[0]), z3.IntVal(0), golib.str_len_of(vals[0]))
+        if name == 'ghostarr':     # the whole ghost map, for frame statements such as ghostarr("fsc") == old(ghostarr("fsc"))
+            g = args[0][1].decode()
+            self.ghost_read(env.st, g, z3.IntVal(0))
+            return env.st.ghost[('gheap', g)]
+        if name == 'ref':
+            return self.refof(self.sev(env, args[0]))
         if name == 'unboxint':
             from .gocalls import unbox_int
             return unbox_int(self.refof(self.sev(env, args[0])))
